@@ -74,6 +74,8 @@ def compare(pid, case, mline, iline):
 
 
 FIXED_SEEN = []
+FIXED2_SEEN = []
+FIXED2_EXPECTED = "fixed sigconn M:x=22,r=27,seen=5,size=0,conn=0,after=1/0 C:x=32,r=27,size=0,conn=0 F:x=42,s=n=77,r=42,size=0"
 FIXED_EXPECTED = "fixed slotref A:outer_nonempty=1,inner_empty=1 B:inner_empty=1,outer_empty=1,copy_empty=0 C:inner_empty=1,outer_empty=1 D:outer2_empty=1"
 
 
@@ -129,6 +131,8 @@ def build_and_run(cases, workdir, variant="asan", keep_opt=False):
         for line in q.stdout.split("\n"):
             if line.startswith("fixed slotref"):
                 FIXED_SEEN.append(line.strip())
+            if line.startswith("fixed sigconn"):
+                FIXED2_SEEN.append(line.strip())
             mm = re.match(r"case (\d+)(.*)", line)
             if mm:
                 out[int(mm.group(1))] = mm.group(2).strip()
@@ -229,6 +233,10 @@ def run(pid, args):
     if pid == "C09" and FIXED_SEEN and any(x != FIXED_EXPECTED for x in FIXED_SEEN):
         v.violation("fixed-slotref", {"property": pid, "broken": "fixed scenario: a slot referred to by std::ref from another slot's functor",
                                       "expected": FIXED_EXPECTED, "got": sorted(set(FIXED_SEEN))[:3], "source": "harness/expr_prelude.h: fixed_slot_by_reference"})
+    v.coverage["fixed_scenarios"]["signal_connect"] = {"seen": sorted(set(FIXED2_SEEN))[:3], "expected": FIXED2_EXPECTED}
+    if FIXED2_SEEN and any(x != FIXED2_EXPECTED for x in FIXED2_SEEN):
+        v.violation("fixed-sigconn", {"property": pid, "broken": "fixed scenario: sigc::signal_connect() must behave as connect(mem_fun(obj, fun)) / connect(ptr_fun(fun))",
+                                      "expected": FIXED2_EXPECTED, "got": sorted(set(FIXED2_SEEN))[:3], "source": "harness/expr_prelude.h: fixed_signal_connect"})
     seen = set()
     for c, m, il, d in mism:
         key = d[0][0] + ":" + "+".join(sorted(gen_expr.adaptors_of(c.term)))
